@@ -121,14 +121,22 @@ def sync_worker(cfg, app, max_requests=1 << 60):
 
 
 def thread_worker(cfg, app, max_requests=1 << 60, keep=0):
-    w = _common(object.__new__(_gthread.ThreadWorker), cfg, app, max_requests)
-    w.worker_connections = cfg.worker_connections
-    w.max_keepalived = cfg.worker_connections - cfg.threads
-    w.tpool = None
-    w.poller = None
+    # the real ThreadWorker.__init__ / Worker.__init__ build the object (so that what they set up - the keep-alive queue,
+    # the limits - is the code under test, not a copy of it); only the heartbeat file is replaced, and the construction
+    # runs outside the tracer (it is concrete)
+    w = object.__new__(_gthread.ThreadWorker)
+    with _untraced():
+        saved = _base.WorkerTmp
+        _base.WorkerTmp = lambda cfg_: types.SimpleNamespace(notify=lambda: None, close=lambda: None, fileno=lambda: 9,
+                                                             last_update=lambda: 0)
+        try:
+            _gthread.ThreadWorker.__init__(w, 1, 1, [], app, 15.0, cfg, CountLog())
+        finally:
+            _base.WorkerTmp = saved
+    w = _common(w, cfg, app, max_requests)
     w._lock = RLock()
-    w.futures = deque()
-    w._keep = deque([object() for _ in range(keep)])
+    for _ in range(keep):
+        w._keep.append(object())
     w.nr_conns = 1
     return w
 
